@@ -132,14 +132,12 @@ class Serializer:
             'qubits': num_qubits,
             'circuit': [op for op in serialized_ops if op['gate'] != 'meas'],
         }
-        if metadata is not None:
-            metadata.update(
-                self._serialize_measurements(op for op in serialized_ops if op['gate'] == 'meas')
-            )
-        else:
-            metadata = self._serialize_measurements(
-                op for op in serialized_ops if op['gate'] == 'meas'
-            )
+        # (a copy: the caller's dictionary is not changed, so reusing it for another circuit does
+        # not carry this circuit's measurement entries along)
+        metadata = {
+            **(metadata or {}),
+            **self._serialize_measurements(op for op in serialized_ops if op['gate'] == 'meas'),
+        }
 
         return SerializedProgram(
             input=program_input,
@@ -201,17 +199,11 @@ class Serializer:
             )
             qubit_numbers.append(self._num_qubits(circuit))
 
-        if metadata is not None:
-            new_entries = {
-                "measurements": json.dumps(measurements),
-                "qubit_numbers": json.dumps(qubit_numbers),
-            }
-            metadata.update(new_entries)
-        else:
-            metadata = {
-                "measurements": json.dumps(measurements),
-                "qubit_numbers": json.dumps(qubit_numbers),
-            }
+        metadata = {
+            **(metadata or {}),
+            "measurements": json.dumps(measurements),
+            "qubit_numbers": json.dumps(qubit_numbers),
+        }
 
         return SerializedProgram(
             input=program_input,
